@@ -1,3 +1,83 @@
 package main
 
-func (cx *Ctx) selftest() int { return 2 }
+import (
+	"encoding/json"
+	"fmt"
+
+	"github.com/nulab/autog/zzverif/spec"
+)
+
+// selftest: determinism of the simulator itself. A mixed sample of jobs (multi-resolution, concurrent schedules,
+// fault-injected histories) is executed six times in fresh worker processes: twice under each of three process
+// layouts (1 worker x GOMAXPROCS=1, 4 x 4, 16 x 16). Every answer must be byte-identical (trace hashes, tick counts,
+// results, schedule fingerprints, event sequences). Exit 0 = deterministic, 2 = not.
+func (cx *Ctx) selftest() int {
+	r := rng{s: mix(cx.Seed, 0x5e1f)}
+	gc := genCfg{allowRandomGreedy: true, nastyPct: 5, multiPct: 30, bigPct: 2}
+	var jobs []*spec.Job
+	n := cx.count(40, 400)
+	b := cx.Budgets
+	b.Frame, b.Ticks = 2_000_000, 30_000_000
+	for i := 0; i < n; i++ {
+		es, _ := genGraph(&r, gc)
+		c := spec.Call{Edges: es, Opts: genOptions(&r, es, gc)}
+		jobs = append(jobs, &spec.Job{ID: len(jobs), Kind: "multi", Calls: []spec.Call{c}, Res: c07Resolutions(&r, 5), Budgets: b})
+	}
+	for i := 0; i < n/3; i++ {
+		k := r.between(2, 6)
+		calls := cx.c15Calls(&r, k)
+		for _, sc := range c15Schedules(&r, 3) {
+			jobs = append(jobs, &spec.Job{ID: len(jobs), Kind: "conc", Calls: calls, Res: []spec.Resolution{{Adv: "seeded", AdvSeed: r.next()}}, Sched: sc, Budgets: b})
+		}
+	}
+	for i := 0; i < n/2; i++ {
+		jobs = append(jobs, &spec.Job{ID: len(jobs), Kind: "history", Calls: cx.c18History(&r), Res: []spec.Resolution{{Adv: "identity"}}, Budgets: b})
+	}
+	canon := func(jr JobResult) string {
+		if jr.Res == nil {
+			return "DIED"
+		}
+		res := *jr.Res
+		res.WallMs = 0
+		for i := range res.Outcomes {
+			res.Outcomes[i].Bytes = 0
+		}
+		for i := range res.Solo {
+			res.Solo[i].Bytes = 0
+		}
+		bts, _ := json.Marshal(res)
+		return string(bts)
+	}
+	var ref []string
+	mismatch, runs := 0, 0
+	for _, lay := range []struct {
+		w     int
+		procs string
+	}{{1, "1"}, {4, "4"}, {16, "16"}} {
+		for rep := 0; rep < 2; rep++ {
+			p := *cx.simFresh
+			p.N = lay.w
+			p.Env = []string{"GOMAXPROCS=" + lay.procs}
+			rs := p.Run(jobs, nil)
+			runs++
+			for i, jr := range rs {
+				c := canon(jr)
+				if ref == nil || len(ref) <= i {
+					ref = append(ref, c)
+					continue
+				}
+				if c != ref[i] {
+					mismatch++
+					if mismatch <= 5 {
+						fmt.Printf("MISMATCH job %d (%s) layout %dx%s rep %d\n", i, jobs[i].Kind, lay.w, lay.procs, rep)
+					}
+				}
+			}
+		}
+	}
+	fmt.Printf("selftest: %d jobs (%d multi, conc and history) x %d executions in fresh processes under 3 process layouts: %d mismatches\n", len(jobs), n, runs, mismatch)
+	if mismatch > 0 || len(cx.Trouble) > 0 {
+		return 2
+	}
+	return 0
+}
